@@ -241,7 +241,7 @@ def report(ctx, viols, tests, rawcfg):
         what = info.get("what", "")
         lines = tests.get(test, [])
         inst = lines[0]["inst"][v["n"] - 1] if lines and v["n"] - 1 < len(lines[0]["inst"]) else {}
-        sig = {"test": test.split(".")[-1], "what": what, "router": inst.get("router", "")}
+        sig = {"test": test.split(".")[-1].split("#")[0], "what": what, "router": inst.get("router", "")}
         key = (pred, json.dumps(sig, sort_keys=True))
         seen.setdefault(key, 0)
         seen[key] += 1
@@ -251,7 +251,7 @@ def report(ctx, viols, tests, rawcfg):
             pred, test, v["n"], inst.get("router"), inst.get("id"), v["ln"], v["g"], v["ty"], json.dumps(info, sort_keys=True)[:500])
         payload = {"test": test, "instance": v["n"], "instance_cfg": inst, "line": v["ln"], "predicate": pred, "info": info,
                    "rerun": "cd %s && VERIF_AUTOTRACE=<dir> GOFLAGS=-mod=mod GOPROXY=off go test -tags verif -count=1 -vet=off -run '^%s$' %s" % (
-                       vlib.REPO, test.split(".")[-1], "." if not test.startswith("partialmessages") else "./partialmessages/"),
+                       vlib.REPO, test.split(".")[-1].split("#")[0], "." if not test.startswith("partialmessages") else "./partialmessages/"),
                    "note": "real goroutine schedules differ between runs; the window below is the evidence",
                    "window": window(lines, v["ln"], v["n"]) if lines else []}
         vlib.add_violation(ctx, pred, sig, detail, payload)
